@@ -48,8 +48,12 @@ func softTimeout() time.Duration {
 	return 2500 * time.Millisecond
 }
 
+// hangNoAnswer: a permanent deadlock of the compiler in which the visitor waits for the allocator's answer
+// while the allocator is back waiting for requests (see classifyDump).
+const hangNoAnswer = "hang:no-answer"
+
 type RunResult struct {
-	Status  string // ok | rejected | crash | hang:D8 | hang | deadlock | harness-error
+	Status  string // ok | rejected | crash | hang:D8 | hang:no-answer | hang | deadlock | harness-error
 	Exit    int
 	Stdout  string
 	Stderr  string
@@ -104,6 +108,7 @@ var goroutineHdr = regexp.MustCompile(`(?m)^goroutine \d+ (?:gp=\S+ m=\S+(?: mp=
 func classifyDump(dump string) string {
 	blocks := strings.Split(dump, "\n\n")
 	assignerSend, monitorAlive, mainBlocked := false, false, false
+	assignerIdle, visitorWaits := false, false
 	progressing := false
 	seen := 0
 	for _, b := range blocks {
@@ -134,16 +139,28 @@ func classifyDump(dump string) string {
 			if strings.HasPrefix(state, "chan send") {
 				assignerSend = true
 			}
+			if strings.HasPrefix(state, "chan receive") {
+				assignerIdle = true // back at the top of its loop, waiting for the next request
+			}
 		case strings.Contains(b, "bondgo.(*BondgoRequirements).Usage_Monitor"):
 			monitorAlive = true
 		case strings.Contains(b, "main.main"):
 			if strings.HasPrefix(state, "chan send") || strings.HasPrefix(state, "chan receive") {
 				mainBlocked = true
 			}
+			if strings.HasPrefix(state, "chan receive") && strings.Contains(b, "bondgo.(*BondgoCheck).") {
+				visitorWaits = true // the visitor (it runs on the main goroutine) waits for an answer of the allocator
+			}
 		}
 	}
 	if assignerSend && !monitorAlive && mainBlocked {
 		return "hang:D8"
+	}
+	if visitorWaits && assignerIdle && !progressing {
+		// the visitor waits for the answer to a request, the allocator waits for the next request and nothing
+		// else can run: the allocator took the request and sent no answer. No timer or signal changes this
+		// state: the verdict does not depend on how long the process was given.
+		return hangNoAnswer
 	}
 	if progressing || seen == 0 {
 		// no dump at all (the child had not even reached its signal handler, or was killed before it could
@@ -226,7 +243,7 @@ func runOnce(src string, rsize int, mpm bool, p Plan, deadline time.Duration, pr
 			res.Status = "hang"
 			res.Dump = fmt.Sprintf("(spinning: %d clock ticks of processor time consumed)\n", cpuTicks) + res.Dump
 		}
-		if probe && res.Status != "hang:D8" {
+		if probe && res.Status != "hang:D8" && res.Status != hangNoAnswer {
 			res.Status = "probe-inconclusive"
 		}
 		return res
@@ -240,9 +257,10 @@ func runOnce(src string, rsize int, mpm bool, p Plan, deadline time.Duration, pr
 	}
 	if strings.Contains(res.Stderr, "all goroutines are asleep") {
 		res.Dump = res.Stderr
-		if classifyDump(res.Dump) == "hang:D8" {
-			res.Status = "hang:D8"
-		} else {
+		switch cl := classifyDump(res.Dump); cl {
+		case "hang:D8", hangNoAnswer:
+			res.Status = cl
+		default:
 			res.Status = "deadlock"
 		}
 		return res
